@@ -7,7 +7,7 @@ set -u
 N="$1"; LIST="$(readlink -f "$2")"
 mkdir -p /verif/out/selftest; RES=/verif/out/selftest/results.tsv; : > "$RES.lock"
 worker() {
-  i="$1"; W="/tmp/st-$i"
+  i="$1"; W="/tmp/${ST_PREFIX:-st}-$i"
   rm -rf "$W/verif"; mkdir -p "$W"
   [ -d "$W/repo" ] && git -C /repo worktree remove --force "$W/repo" >/dev/null 2>&1
   git -C /repo worktree add --detach "$W/repo" HEAD >/dev/null 2>&1
